@@ -162,7 +162,7 @@ def r20_4(cx):
 def r20_5(cx):
     """a clone keeps alive what it points to: zero-count pins are never re-pointed, overwritten or dropped early (R5.7, R5.8)"""
     from . import c05
-    compose(cx, [('R5.7', c05.r5_7), ('R5.8', c05.r5_8)])
+    compose(cx, [('R5.4', c05.r5_4), ('R5.7', c05.r5_7), ('R5.8', c05.r5_8)])
 
 
 RULES = [('R20.1', r20_1), ('R20.2', r20_2), ('R20.3', r20_3), ('R20.4', r20_4), ('R20.5', r20_5)]
